@@ -23,11 +23,11 @@ def trans_check(sd, hist, op, s0, key0, s, key, idb, exc, memo):
 def replay(doc):
     c = doc["case"]
     v = state_check(c["seed"], c["hist"])
-    if len(c["hist"]) > 0 and not v:
+    if len(c["hist"]) > 0:
         s0, g0 = e2.replay(c["seed"], c["hist"][:-1])
         s, g = e2.replay(c["seed"], c["hist"][:-1])
         g2, exc = e2.step(s, g, c["hist"][-1])
-        v = trans_check(c["seed"], c["hist"][:-1], c["hist"][-1], s0, e2.kfull(s0, g0), s, e2.kfull(s, g2), None, exc, {})
+        v = v + trans_check(c["seed"], c["hist"][:-1], c["hist"][-1], s0, e2.kfull(s0, g0), s, e2.kfull(s, g2), None, exc, {})
     for sig, det in v:
         print("  ", sig, det)
     return [tuple(str(x) for x in s) for s, _ in v]
